@@ -596,7 +596,7 @@ def subchecks():
             run_case=run_partB_search,
             strategy=lambda tier: gen.scenario(tier, dbs=["RuleDB", "RuleDB", "Forget"], allow_reverse_template=False),
             examples={"quick": 1500, "thorough": 20000},
-            case_timeout=120.0,
+            case_timeout=20.0,
         ),
         SubCheck(
             name="fuzz",
